@@ -338,6 +338,7 @@ class Run:
                 violations.append(d)
         # confirmation: a violation must reproduce from its replay before it is reported
         confirmed = []
+        unreproduced = []
         seen_sig = set()
         for d in violations:
             if d["sig"] in seen_sig:
@@ -352,10 +353,18 @@ class Run:
                 except Exception as e:  # noqa
                     die_tooling("confirmation of a divergence crashed: %r" % (e,))
                 if not ok:
-                    die_tooling("divergence not reproducible (sig=%s): %s" % (d["sig"], d["what"]))
+                    # an observation that does not reproduce is never reported as a violation; the run is a tooling
+                    # failure only if NO divergence of this run reproduces (a defect that shows up only under some
+                    # map iteration orders yields a mix of reproducible and unreproducible signatures)
+                    unreproduced.append(d)
+                    continue
             confirmed.append(d)
             if len(confirmed) >= 5:
                 break
+        if violations and not confirmed:
+            d = unreproduced[0]
+            die_tooling("divergence not reproducible (sig=%s): %s" % (d["sig"], d["what"]))
+        self.extra["unreproduced_divergences"] = len(unreproduced)
         replay_paths = []
         for d in confirmed:
             replay_paths.append(self.write_replay(d))
@@ -397,7 +406,7 @@ class Run:
         print("%s tier=%s seed=%d evaluations=%d distinct_nontrivial=%d states=%d traces=%d divergences=%d wall=%.1fs" % (
             self.prop, self.tier, self.seed, self.evaluations, len(self.nontrivial), self.states,
             self.traces_validated, len(self.divergences), wall))
-        if violations:
+        if confirmed:
             for d, pth in zip(confirmed, replay_paths):
                 print("  divergence sig=%s: %s" % (d["sig"], brief(d["what"], 400)))
                 print("VIOLATION property=%s replay=%s" % (self.prop, pth))
